@@ -293,7 +293,36 @@ func c10Oracle(w *World, c *c10Ctl) *Violation {
 						pns = mstr(post, "namespace")
 					}
 					live := parentBefore(pr, pns, co.Name, rv)
-					if live != nil && mstr(live, "uid") == co.UID && !hasFinalizer(live, c.finalizer) {
+					// as far as the sync could know: a version of the parent it could have read -
+					// from the cache, or in an answer it got - carried the finalizer. (The store may
+					// be ahead: the finalizer was taken off after a finalized:true answer and the
+					// event has not arrived yet. No controller working from a cache can exclude that.)
+					sawFinalizer := false
+					for _, ver := range w.Cache.Versions(sy.ID.Inc, pr, pns, co.Name, sy.StartStep-1, q.ParkStep) {
+						if ver != nil {
+							if vo := mustParse(ver); mstr(vo, "uid") == co.UID && hasFinalizer(vo, c.finalizer) {
+								sawFinalizer = true
+							}
+						}
+					}
+					// an answer the sync got about the parent is newer than anything cached: the
+					// latest one decides (a sync that took the finalizer off itself knows it is gone)
+					var lastAnswer *ReqRec
+					for _, q2 := range sy.Reqs {
+						if q2.Arrival < q.Arrival && q2.Res == pr && q2.NS == pns && q2.Name == co.Name && q2.Post != nil && q2.Code == 200 && q2.Fault == "" {
+							if lastAnswer == nil || q2.Arrival > lastAnswer.Arrival {
+								lastAnswer = q2
+							}
+						}
+					}
+					if lastAnswer != nil {
+						vo := mustParse(lastAnswer.Post)
+						sawFinalizer = mstr(vo, "uid") == co.UID && hasFinalizer(vo, c.finalizer)
+					}
+					if live != nil && mstr(live, "uid") == co.UID && !hasFinalizer(live, c.finalizer) && sawFinalizer {
+						w.Probe("c10:child-created-on-a-stale-view-of-the-finalizer")
+					}
+					if live != nil && mstr(live, "uid") == co.UID && !hasFinalizer(live, c.finalizer) && !sawFinalizer {
 						sig := copySig(c.sig)
 						sig["finalizedAnswerListsChildren"] = "false"
 						// how the parent came to be without the finalizer: it never had it, or it
